@@ -171,6 +171,31 @@ func c20Dropped(c *Ctx, p *Prog) {
 			if idx[k] > 1 {
 				k = fmt.Sprintf("%s#%d", k, idx[k])
 			}
+			// discarding a file with the error that is already being reported: CloseWithError(e) on a path where e is
+			// known non-nil (wherever that code lives)
+			if name == "(storage/fs.Writer).CloseWithError" {
+				args := callArgs(cc)
+				if len(args) >= 2 {
+					ev := args[len(args)-1]
+					for _, f := range factsAt(in.Block()) {
+						bo, ok := f.Cond.(*ssa.BinOp)
+						if !ok {
+							continue
+						}
+						kc, isK := bo.Y.(*ssa.Const)
+						if !isK || !kc.IsNil() {
+							continue
+						}
+						same := bo.X == ev || sameValue(bo.X, ev) || (loadAddr(bo.X) != nil && loadAddr(bo.X) == loadAddr(ev))
+						if same && ((bo.Op == token.NEQ && f.True) || (bo.Op == token.EQL && !f.True)) {
+							nAllowed++
+							c.Allow(R, name+" in "+fnName(fn), "discarding the file with an error that is already non-nil on this path")
+							c.OK(R, k, p.pos(in.Pos()), "clean-up call: CloseWithError(e) where e != nil")
+							return
+						}
+					}
+				}
+			}
 			for _, a := range allows {
 				if name == a.callee && strings.HasPrefix(fnName(fn), a.in) {
 					nAllowed++
@@ -739,6 +764,8 @@ func c20WriterPairing(c *Ctx, p *Prog) {
 		var def *ssa.Defer
 		var cl *ssa.Function
 		var mcl *ssa.MakeClosure
+		var closeHelper *ssa.Function
+		var closeHelperCall *ssa.Call
 		eachInstr(fn, func(_ *ssa.BasicBlock, in ssa.Instruction) {
 			if d, ok := in.(*ssa.Defer); ok {
 				if mc, ok := d.Call.Value.(*ssa.MakeClosure); ok {
@@ -747,6 +774,17 @@ func c20WriterPairing(c *Ctx, p *Prog) {
 					eachInstr(f, func(_ *ssa.BasicBlock, in2 ssa.Instruction) {
 						if c2, ok := in2.(*ssa.Call); ok && c2.Call.IsInvoke() && (c2.Call.Method.Name() == "CloseWithError" || c2.Call.Method.Name() == "Close") {
 							has = true
+						}
+						// or a helper of the package that does the closing
+						if c2, ok := in2.(*ssa.Call); ok {
+							if h := c2.Call.StaticCallee(); h != nil && h.Blocks != nil && h.Pkg == fn.Pkg {
+								eachInstr(h, func(_ *ssa.BasicBlock, in3 ssa.Instruction) {
+									if c3, ok := in3.(*ssa.Call); ok && c3.Call.IsInvoke() && c3.Call.Method.Name() == "CloseWithError" {
+										has = true
+										closeHelper, closeHelperCall = h, c2
+									}
+								})
+							}
 						}
 					})
 					if has {
@@ -768,7 +806,69 @@ func c20WriterPairing(c *Ctx, p *Prog) {
 			}
 		}
 		okCWE, okClose := false, false
-		if fvErr >= 0 {
+		if fvErr >= 0 && closeHelper != nil {
+			// err = helper(..., err): the helper receives the function's error, discards the file when it is non-nil
+			// and returns Close's error otherwise; the closure stores the helper's result back into the error
+			fv := cl.FreeVars[fvErr]
+			pi := -1
+			for i, a := range closeHelperCall.Call.Args {
+				if la := loadAddr(a); la == fv {
+					pi = i
+				}
+			}
+			stored := false
+			for _, r := range *closeHelperCall.Referrers() {
+				if st, ok := r.(*ssa.Store); ok && st.Addr == fv {
+					stored = true
+				}
+			}
+			if pi >= 0 && pi < len(closeHelper.Params) && stored {
+				prm := closeHelper.Params[pi]
+				eachInstr(closeHelper, func(b *ssa.BasicBlock, in ssa.Instruction) {
+					call, isCall := in.(*ssa.Call)
+					if !isCall || !call.Call.IsInvoke() {
+						return
+					}
+					nonNil, isNil := false, false
+					for _, f := range factsAt(b) {
+						if bo, ok := f.Cond.(*ssa.BinOp); ok && bo.X == prm {
+							if cst, ok := bo.Y.(*ssa.Const); ok && cst.IsNil() {
+								if (bo.Op == token.NEQ) == f.True {
+									nonNil = true
+								} else {
+									isNil = true
+								}
+							}
+						}
+					}
+					switch call.Call.Method.Name() {
+					case "CloseWithError":
+						if nonNil {
+							okCWE = true
+						}
+					case "Close":
+						if isNil {
+							// its result is what the helper returns on that path
+							for _, hb := range closeHelper.Blocks {
+								if ret, ok := hb.Instrs[len(hb.Instrs)-1].(*ssa.Return); ok {
+									rv := retVal(ret, 0)
+									if rv == call {
+										okClose = true
+									}
+									if phi, ok := rv.(*ssa.Phi); ok {
+										for _, e := range phi.Edges {
+											if e == call {
+												okClose = true
+											}
+										}
+									}
+								}
+							}
+						}
+					}
+				})
+			}
+		} else if fvErr >= 0 {
 			fv := cl.FreeVars[fvErr]
 			eachInstr(cl, func(b *ssa.BasicBlock, in ssa.Instruction) {
 				call, isCall := in.(*ssa.Call)
